@@ -33,6 +33,13 @@ def evLine (e : Env) : String := s!"EV delivered {e.src.toTok} {e.dst.toTok} {e.
 
 /-- Host-level op → model. -/
 def hostOp (w : World) (h : Nat) (t : List String) : World × String :=
+  let target : Option Nat := match t with
+    | ["udp_bind", s, _] => some (slotOf s)
+    | ["tcp_bind", s, _] => some (slotOf s)
+    | ["tcp_connect", s, _] => some (slotOf s)
+    | ["tcp_accept", _, s] => some (slotOf s)
+    | _ => none
+  if (match target with | some s => (w.getObj h s).isSome | none => false) then (w, "err slotbusy") else
   match t with
   | ["udp_bind", s, a] => w.opUdpBind h (slotOf s) (parseAddr a)
   | ["tcp_bind", s, a] => w.opTcpBind h (slotOf s) (parseAddr a)
@@ -64,6 +71,7 @@ def hostOp (w : World) (h : Nat) (t : List String) : World × String :=
   | ["net_hold", a, b] => (w.ctlHold (hostOf a) (hostOf b), "ok")
   | ["net_release", a, b] => (w.ctlRelease (hostOf a) (hostOf b), "ok")
   | ["sleep", _] => (w, "ok")
+  | ["lookup", name] => let (ip, w) := w.dnsLookup name; (w, s!"ok {ip}")
   | _ => (w, "err unknownop")
 
 def norm (s : String) : String := " ".intercalate ((s.splitOn " ").filter (· != ""))
@@ -89,7 +97,20 @@ def ctlOp (s : RState) (t : List String) : RState :=
   let w := s.w
   match t with
   | "reg" :: _ :: rest =>
-    { s with w := w.register (kvNat rest "ip" 0) (kvGet rest "kind" == some "client"), expectObs := some "ok" }
+    let ip := kvNat rest "ip" 0
+    let (w, bad) := match kvGet rest "name" with
+      | some "-" => (w, false)
+      | none => (w, false)
+      | some name => let (ip', w) := w.dnsLookup name; (w, ip' != ip)
+    let s := if bad then { s with bad := some (0, "registered host address differs from the DNS model") } else s
+    { s with w := w.register ip (kvGet rest "kind" == some "client"), expectObs := some "ok" }
+  | ["dns", name] => let (ip, w) := w.dnsLookup name; { s with w := w, expectObs := some s!"ok {ip}" }
+  | ["dnsip", ip] => { s with expectObs := some s!"ok {ip}" }
+  | ["rdns", ip] =>
+    { s with expectObs := some (match w.dnsReverse (ip.toNat?.getD 0) with | some n => s!"ok {n}" | none => "none") }
+  | ["dnsprefix", p] =>
+    let ips := (w.dns.names.filter (fun x => x.1.startsWith p)).map (fun x => toString (ipOfCounter w.v6 x.2))
+    { s with expectObs := some s!"ok {if ips.isEmpty then "-" else ",".intercalate ips}" }
   | "q" :: _ => s
   | ["step"] => { s with w := w.stepBegin, inStep := true, expectObs := none }
   | ["partition", a, b] => { s with w := w.ctlPartition (hostOf a) (hostOf b), expectObs := some "ok" }
@@ -182,7 +203,8 @@ def replay (lines : List String) (link : Cfg) (fixLeak fixFin : Bool) : RState :
   let cfgToks := match lines.find? (·.startsWith "CFG ") with
     | some l => (l.splitOn " ").filter (· != "")
     | none => []
-  let w0 : World := { cfg := parseCfg cfgToks link fixLeak fixFin, oracle := parseOracle lines }
+  let w0 : World := { cfg := parseCfg cfgToks link fixLeak fixFin, oracle := parseOracle lines,
+                      v6 := kvGet cfgToks "ipv" == some "6" }
   let (s, _) := lines.foldl (fun (acc : RState × Nat) l => (line acc.1 acc.2 l, acc.2 + 1)) ({ w := w0 }, 1)
   let s := if !s.done && !s.w.oracle.isEmpty then s.fail 0 "unused oracle values" else s
   if s.w.oraErr then s.fail 0 "missing oracle value" else s
